@@ -172,8 +172,8 @@ def validate(fam, path, res):
 
 
 def loop_conformance(fam, path, res, method="RADAU", module="Trace_Radau", banner="RADAU-TRACE", cfg=None):
-    """Level B: every recorded RADAU / BDF / DOPRI5 / DOP853 run (low-level and through solve_ivp) is a behaviour of
-    Radau.tla / Bdf.tla / Dopri.tla
+    """Level B: every recorded run of every method (low-level and through solve_ivp) is a behaviour of
+    Radau.tla / Bdf.tla / Dopri.tla (DOPRI5, DOP853, RK23, RK4)
     (trace validation with the solver's decision points logged through the hook ivp::verif_trace).
     Rejections are specification drift, never violations."""
     runs, cur, meta = [], None, None
@@ -256,6 +256,8 @@ def run_families(fams, tier, seed, work):
             loop_conformance(fam if si == 0 else f"{fam}#{si}", p, res, "BDF", "Trace_Bdf", "BDF-TRACE")
             loop_conformance(fam if si == 0 else f"{fam}#{si}", p, res, "DOPRI5", "Trace_Dopri", "DOPRI-TRACE", "Trace_Dopri5.cfg")
             loop_conformance(fam if si == 0 else f"{fam}#{si}", p, res, "DOP853", "Trace_Dopri", "DOPRI-TRACE", "Trace_Dop853.cfg")
+            loop_conformance(fam if si == 0 else f"{fam}#{si}", p, res, "RK23", "Trace_Dopri", "DOPRI-TRACE", "Trace_Rk23.cfg")
+            loop_conformance(fam if si == 0 else f"{fam}#{si}", p, res, "RK4", "Trace_Dopri", "DOPRI-TRACE", "Trace_Rk4.cfg")
             if tier != "quick":
                 os.remove(p)
     return res
